@@ -107,6 +107,40 @@ theorem dry_run_is_noop (s : Store) (hwf : WF s) (st : Stmt) (hd : st.dry = true
 example : (exec Store.init { dry := true, clauses := [.createConcept 1 1 1 1 false] }).2
     = .dryRun [⟨⟨.concept, 1⟩, .create, 1⟩] := by decide
 
+/-- the same for the record-lifecycle clauses: a dry run of SUPERSEDE + CORRECT + TRANSITION + SET
+RETENTION previews five changes and leaves every row, the journal and the version log alone -/
+example :
+    let hist : List Stmt := [{ clauses := [.createConcept 1 1 1 1 false, .createConcept 2 2 2 2 false,
+        .ensure (some 3) (.h 1) 5 (.h 2) none false, .createRec .assertion 4 55 [.h 3, .h 1] false,
+        .createRec .assertion 5 66 [.h 3, .h 1] false, .createRec .evidence 6 1 [] false,
+        .createRec .evidence 7 2 [] false, .createRec .activity 8 3 [] false] }]
+    let st : Stmt := { dry := true, clauses := [.supersede (.id ⟨.assertion, 1⟩) (.id ⟨.assertion, 2⟩) (some 0),
+        .correct (.id ⟨.evidence, 1⟩) (.id ⟨.evidence, 2⟩), .transition (.id ⟨.activity, 1⟩) 6 (some 0),
+        .setRetention (.id ⟨.concept, 1⟩) 2 (some 1)] }
+    (exec (run Store.init hist) st).2 =
+      .dryRun [⟨⟨.assertion, 1⟩, .supersede, 2⟩, ⟨⟨.assertion, 2⟩, .supersede, 2⟩, ⟨⟨.concept, 1⟩, .setRetention, 2⟩,
+               ⟨⟨.evidence, 1⟩, .correct, 2⟩, ⟨⟨.evidence, 2⟩, .correct, 2⟩, ⟨⟨.activity, 1⟩, .transition, 2⟩] ∧
+    (exec (run Store.init hist) st).1.vlog = (run Store.init hist).vlog ∧
+    -- and the same statement for real: six elements, each at old version + 1, one journal row
+    (exec (run Store.init hist) { st with dry := false }).2 =
+      .done 2 .committed [⟨⟨.assertion, 1⟩, .supersede, 2⟩, ⟨⟨.assertion, 2⟩, .supersede, 2⟩, ⟨⟨.concept, 1⟩, .setRetention, 2⟩,
+               ⟨⟨.evidence, 1⟩, .correct, 2⟩, ⟨⟨.evidence, 2⟩, .correct, 2⟩, ⟨⟨.activity, 1⟩, .transition, 2⟩] ∧
+    -- a SUPERSEDE whose replacement is about another Proposition is refused *after* the old row was
+    -- edited in the staged copy: nothing of that edit remains
+    (exec (run Store.init hist) { clauses := [.ensure (some 1) (.id ⟨.concept, 1⟩) 7 (.id ⟨.concept, 2⟩) none false,
+        .createRec .assertion 2 44 [.h 1, .id ⟨.concept, 1⟩] false,
+        .supersede (.id ⟨.assertion, 1⟩) (.h 2) none] }).2 = .refusedPlan .invalid := by decide
+
+/-- **No clause kind of the engine is silently outside the model.** Every `MutationClause` variant that
+`clauses::apply` dispatches on in the current source (`Gen.NexusOrder.clauseKinds`, regenerated on
+every run) is either interpreted by the model (`Clause.kindName` of some model clause) or named in
+`notModelledKinds`; and the model interprets no kind the engine does not have. All theorems of this
+file quantify over every statement built from the modelled kinds. -/
+theorem clause_kinds_covered :
+    (∀ k ∈ Gen.NexusOrder.clauseKinds, k ∈ modelledKinds ∨ k ∈ notModelledKinds) ∧
+    (∀ k ∈ modelledKinds, k ∈ Gen.NexusOrder.clauseKinds) ∧
+    (∀ k ∈ notModelledKinds, k ∈ Gen.NexusOrder.clauseKinds ∧ k ∉ modelledKinds) := by decide
+
 /-- A statement that commits gets exactly the next sequence, adds one journal row carrying it
 (`no_effect` iff nothing changed), lists every changed element once, stores each of them at the
 version of its change record with the commit's sequence — `1` for a created element, exactly the
